@@ -245,6 +245,9 @@ def matrix(rv: int) -> List[dict]:
         ("nonjson:open_array", "[1,2"),
         ("nonjson:truncated_request", f'{{{V}, "set": {{{SIB}}}'),
         ("nonjson:two_objects", f"{ok_set} {ok_set}"),
+        # well-formed JSON grammar that Python's json refuses with a plain ValueError (int digit limit)
+        ("nonjson:huge_integer", f'{{{V}, "set": {{"I": ' + "9" * 5000 + "}}"),
+        ("nonjson:huge_integer_toplevel", "1" * 5000),
     ):
         out.append(case(cls, line, None, "invalid", need_error=True))
     for raw in ("null", "true", "5", "1.5", '"x"', '"version"', "[]", "[1]"):
